@@ -41,6 +41,8 @@ func main() {
 		runRuntime(checkC04())
 	case "C05":
 		runRuntime(checkC05())
+	case "C06":
+		runRuntime(checkC06())
 	case "gen-sample":
 		// debugging aid: print the DSL of a few specs
 		run := vc.New("sample")
